@@ -68,9 +68,15 @@ class ILock:
     def __enter__(self):
         self.ctl.point("lock")
         self.l.acquire()
+        self.holder = threading.current_thread().name
 
     def __exit__(self, *a):
+        self.holder = None
         self.l.release()
+        self.ctl.point("unlock")
+
+    def held(self):
+        return getattr(self, "holder", None) == threading.current_thread().name
 
 
 class QList(list):
@@ -113,11 +119,19 @@ def run_one(fn, running, hopping, op, queue, sched):
         def __getattribute__(self, k):
             if k in ("running", "fh"):
                 ctl.point("read " + k)
+            elif k == "_tx_queue":
+                lk = object.__getattribute__(self, "__dict__").get("_tx_queue_lock")
+                if isinstance(lk, ILock) and not lk.held():
+                    ctl.point("unprotected read _tx_queue")      # never reached by the code as it is: the queue is only touched under the lock
             return object.__getattribute__(self, k)
 
         def __setattr__(self, k, v):
             if k in ("running", "fh"):
                 ctl.point("write " + k)
+            elif k == "_tx_queue":
+                lk = object.__getattribute__(self, "__dict__").get("_tx_queue_lock")
+                if isinstance(lk, ILock) and not lk.held():
+                    ctl.point("unprotected write _tx_queue")
             if k == "_tx_queue" and not isinstance(v, QList):
                 v = QList(v)
             object.__setattr__(self, k, v)
@@ -176,10 +190,11 @@ def run_one(fn, running, hopping, op, queue, sched):
                 pass
         emitted = [d[0][5] - 60 for d in b.data_if.sock.sent]
         q = [m.pwr for m in object.__getattribute__(a, "_tx_queue")]
+        unprot = [lbl for who, lbl in ctl.trace if lbl.startswith("unprotected")]
         tstate = ctl.state["tick"]
         obs = [1 if tstate[0] == "exc" else 0, int(bool(object.__getattribute__(a, "running"))), int(object.__getattribute__(a, "fh") is not None),
                len(emitted)] + emitted + [len(slog.ids)] + slog.ids + [len(q)] + q + [QList.cleared, rejected[0]]
-        return obs, ctl.trace, (tstate, ctl.state["sock"])
+        return obs, ctl.trace, (tstate, ctl.state["sock"], unprot)
     finally:
         root.removeHandler(slog)
         root.setLevel(old_level)
